@@ -24,4 +24,6 @@ Inductive node :=
 | NVar (name : str) (val : list vtok)
 | NBlock (sel : list str) (body : list node)       (* Identifier tokens (flat), contents; also @media/@keyframes/@font-face *)
 | NFrame (sel : str) (body : list node)            (* KeyframeSelector block *)
-| NStmt (toks : list str).                         (* @charset / non-LESS @import *)
+| NStmt (toks : list str)                          (* @charset / non-LESS @import *)
+| NMixin (name : str) (params : list (str * option (list vtok))) (body : list node)   (* .m(@a; @b: dflt) { body } *)
+| NCall (name : str) (args : list (list vtok)).    (* .m(arg; arg); / .rule; *)
